@@ -101,7 +101,19 @@ let print_item = function
   | Escaped -> print_string "ESC\n"
   | Bad n -> Printf.printf "BAD %d\n" (i n)
 
+let rec print_ids mp11 p m =
+  let Machine (sts, _, _, _, _) = m in
+  let order = doc_order mp11 m [] in
+  Printf.printf "DOC %s %s\n" (path p) (String.concat " " (List.map (fun n -> string_of_int (int_of_nat n)) order));
+  List.iteri (fun i st -> match st with State (_, Some sub, _, _, _, _) -> print_ids mp11 (p @ [nat_of_int i]) sub | _ -> ()) sts
+
 let () =
+  if Sys.argv.(1) = "ids" then begin
+    (match parse (read_all stdin) with
+     | m :: _ -> print_ids (Sys.argv.(2) = "mp11") [] (mdef m).md_root
+     | [] -> failwith "no input");
+    exit 0
+  end;
   let be = match Sys.argv.(1) with "back" -> Back | "back11" -> Back11 | "mp11" -> Mp11 | s -> failwith ("backend " ^ s) in
   let cf = { c_be = be; c_fct = Sys.argv.(2) = "1"; c_pol = nat_of_int (int_of_string Sys.argv.(3));
              c_qbefore = Sys.argv.(4) = "1" } in
